@@ -41,7 +41,7 @@ mod proofs {
         assert!(c2.data()[if p < L2 { p } else { 0 }] == b[if p < L2 { p } else { 0 }]);
     }
 
-    // @harness id=C02 tier=quick unwind=14 timeout=1500 fs=4096 
+    // @harness id=C02 tier=thorough unwind=14 timeout=1500 fs=4096 
     // @desc Evaluator::add_inplace / sub_inplace on BFV ciphertexts of sizes (2,2): every residue of the result is a+b resp. a-b of the zero-extended operands (so phase_out = phase_1 +- phase_2 for every secret key), size = max, level/form/scale/correction factor preserved, second operand unchanged
     // @bounds BFV N=2, q={97}, t=3 (literal context of the real HeContext::new); all canonical operand residues; coefficient or NTT representation symbolic; add or sub symbolic; one residue position checked symbolically
     // @funcs Evaluator::translate_inplace, Evaluator::add_inplace, Evaluator::sub_inplace, Evaluator::check_ciphertext, Ciphertext::is_valid_for, Ciphertext::resize, polysmallmod::add_inplace_ps, polysmallmod::sub_inplace_ps
@@ -89,7 +89,7 @@ mod proofs {
         std::mem::forget(ev); std::mem::forget(ctx);
     }
 
-    // @harness id=C02 tier=quick unwind=14 timeout=1500 fs=4096 
+    // @harness id=C02 tier=thorough unwind=14 timeout=1500 fs=4096 
     // @desc Evaluator::add_inplace / sub_inplace on BFV ciphertexts of sizes (3,3): every residue of the result is a+b resp. a-b of the zero-extended operands (so phase_out = phase_1 +- phase_2 for every secret key), size = max, level/form/scale/correction factor preserved, second operand unchanged
     // @bounds BFV N=2, q={97}, t=3 (literal context of the real HeContext::new); all canonical operand residues; coefficient or NTT representation symbolic; add or sub symbolic; one residue position checked symbolically
     // @funcs Evaluator::translate_inplace, Evaluator::add_inplace, Evaluator::sub_inplace, Evaluator::check_ciphertext, Ciphertext::is_valid_for, Ciphertext::resize, polysmallmod::add_inplace_ps, polysmallmod::sub_inplace_ps
@@ -105,7 +105,7 @@ mod proofs {
         std::mem::forget(ev); std::mem::forget(ctx);
     }
 
-    // @harness id=C02 tier=quick unwind=14 timeout=1500 fs=4096 kf=sub_larger_second_operand
+    // @harness id=C02 tier=thorough unwind=14 timeout=1500 fs=4096 kf=sub_larger_second_operand
     // @desc Evaluator::add_inplace / sub_inplace on BFV ciphertexts of sizes (2,4): every residue of the result is a+b resp. a-b of the zero-extended operands (so phase_out = phase_1 +- phase_2 for every secret key), size = max, level/form/scale/correction factor preserved, second operand unchanged
     // @bounds BFV N=2, q={97}, t=3 (literal context of the real HeContext::new); all canonical operand residues; coefficient or NTT representation symbolic; add or sub symbolic; one residue position checked symbolically
     // @funcs Evaluator::translate_inplace, Evaluator::add_inplace, Evaluator::sub_inplace, Evaluator::check_ciphertext, Ciphertext::is_valid_for, Ciphertext::resize, polysmallmod::add_inplace_ps, polysmallmod::sub_inplace_ps
@@ -181,135 +181,134 @@ mod proofs {
         kani::cover!(true);
     }
 
-    // @harness id=C02 tier=quick unwind=14 timeout=1800 fs=4096
+    // @harness id=C02 tier=quick unwind=14 timeout=2400 fs=4096
     // @desc BGV addition/subtraction of ciphertexts carrying DIFFERENT correction factors: result residues = e1*a +- e2*b and result factor f, where (f, e1, e2) = balance_correction_factors(f1, f2); so result/f decrypts to a/f1 +- b/f2
-    // @bounds BGV N=2, q={97,113}, t=17; sizes (2,2); all canonical residues; factor pairs (1,2), (3,5), (16,7), (9,1) (concrete per case; all 256 pairs of the balancing function itself: c02_balance_correction_factors); NTT form (BGV default)
+    // @bounds BGV N=2, q={97}, t=17; sizes (2,2); all canonical residues; factor pairs (1,2), (3,5), (16,7) (concrete per case; all 256 pairs of the balancing function itself: c02_balance_correction_factors); NTT form (BGV default)
     // @funcs Evaluator::translate_inplace (factor-balancing branch), polysmallmod::multiply_scalar_inplace_ps, Evaluator::balance_correction_factors
     // @stubs HeContext::get_context_data -> linear search over the literal chain (HashMap lookup outside the claim); alloc::sync::Arc::drop_slow -> no-op (memory reclamation outside the claim)
     #[kani::proof]
     #[kani::stub(crate::context::HeContext::get_context_data, crate::context::verif_v::get_context_data_stub)]
     #[kani::stub(alloc::sync::Arc::drop_slow, crate::verif_v::arc_drop_slow_noop)]
     fn c02_add_bgv_unequal_factors() {
-        let ctx = lits::ctx_bgv_n2_2p1();
+        let ctx = lits::ctx_bgv_n2_1p();
         let ev = mk_evaluator(ctx.clone());
         let pid = *ctx.first_parms_id();
         let fc: u8 = kani::any();
-        match fc { 0 => bgv_factor_case(&ev, pid, 1, 2), 1 => bgv_factor_case(&ev, pid, 3, 5), 2 => bgv_factor_case(&ev, pid, 16, 7), _ => bgv_factor_case(&ev, pid, 9, 1) }
+        match fc { 0 => bgv_factor_case(&ev, pid, 1, 2), 1 => bgv_factor_case(&ev, pid, 3, 5), _ => bgv_factor_case(&ev, pid, 16, 7) }
         std::mem::forget(ev); std::mem::forget(ctx);
     }
     fn bgv_factor_case(ev: &Evaluator, pid: ParmsID, f1: u64, f2: u64) {
-        let a = sym2::<8>(); let b = sym2::<8>();
-        let c1 = ct2(&a, pid, true, f1, 1.0); let c2 = ct2(&b, pid, true, f2, 1.0);
+        let a = sym1::<4>(); let b = sym1::<4>();
+        let c1 = ct1(&a, pid, true, f1, 1.0); let c2 = ct1(&b, pid, true, f2, 1.0);
         let sub: bool = kani::any();
         let mut r = c1.clone();
         if sub { ev.sub_inplace(&mut r, &c2); } else { ev.add_inplace(&mut r, &c2); }
         let m = crate::modulus::verif_v::mk_modulus(17, true);
         let (f, e1, e2) = Evaluator::balance_correction_factors(f1, f2, &m);
-        let p: usize = kani::any(); kani::assume(p < 8);
-        let q = q2(p);
-        let ea = (a[p] * e1) % q; let eb = (b[p] * e2) % q;
-        kani::cover!(sub && e1 > 1);
-        kani::cover!(!sub && e2 > 1);
+        let p: usize = kani::any(); kani::assume(p < 4);
+        let q = 97u32;
+        let ea = (a[p] as u32 * e1 as u32) % q; let eb = (b[p] as u32 * e2 as u32) % q;
+        kani::cover!(sub && a[p] != 0);
         assert!(r.correction_factor() == f);
-        assert!(r.data()[p] == if sub { (ea + q - eb) % q } else { (ea + eb) % q });
+        assert!(r.data()[p] as u32 == if sub { (ea + q - eb) % q } else { (ea + eb) % q });
         assert!(c2.correction_factor() == f2 && c2.data()[p] == b[p]);
     }
 
-    /// tensor product check: output polynomial k, slot p must be sum_{i+j=k} a_i[p]*b_j[p] (NTT form, slot-wise)
+    /// tensor product check: output polynomial k, slot p must be sum_{i+j=k} a_i[p]*b_j[p] (NTT form, slot-wise); reference in u32
     fn bgv_mul_case<const L1: usize, const L2: usize>(ev: &Evaluator, pid: ParmsID, square: bool) {
-        let a = sym2::<L1>(); let b = sym2::<L2>();
-        let c1 = ct2(&a, pid, true, 3, 1.0); let c2 = ct2(&b, pid, true, 5, 1.0);
+        let a = sym1::<L1>(); let b = sym1::<L2>();
+        let c1 = ct1(&a, pid, true, 3, 1.0); let c2 = ct1(&b, pid, true, 5, 1.0);
         let mut r = c1.clone();
         if square { ev.square_inplace(&mut r); } else { ev.multiply_inplace(&mut r, &c2); }
-        let (s1, s2) = (L1 / 4, if square { L1 / 4 } else { L2 / 4 });
-        let k: usize = kani::any(); let p: usize = kani::any(); kani::assume(k < s1 + s2 - 1 && p < 4);
-        let q = q2(p);
-        let mut e = 0u64; let mut i = 0;
+        let (s1, s2) = (L1 / 2, if square { L1 / 2 } else { L2 / 2 });
+        let k: usize = kani::any(); let p: usize = kani::any(); kani::assume(k < s1 + s2 - 1 && p < 2);
+        let q = 97u32;
+        let mut e = 0u32; let mut i = 0;
         while i < s1 {
             if k >= i && k - i < s2 {
-                let bj = if square { a[(k - i) * 4 + p] } else { b[(k - i) * 4 + p] };
-                e = (e + a[i * 4 + p] * bj) % q;
+                let bj = if square { a[(k - i) * 2 + p] } else { b[(k - i) * 2 + p] };
+                e = (e + a[i * 2 + p] as u32 * bj as u32) % q;
             }
             i += 1;
         }
         kani::cover!(k == s1 + s2 - 2 && e != 0);
-        assert!(r.size() == s1 + s2 - 1 && r.data().len() == (s1 + s2 - 1) * 4 && r.is_ntt_form() && *r.parms_id() == pid);
-        assert!(r.data()[k * 4 + p] == e);
+        assert!(r.size() == s1 + s2 - 1 && r.data().len() == (s1 + s2 - 1) * 2 && r.is_ntt_form() && *r.parms_id() == pid);
+        assert!(r.data()[k * 2 + p] as u32 == e);
         assert!(r.correction_factor() == if square { 9 } else { 15 });
-        assert!(c2.size() == L2 / 4 && c2.data()[p] == b[p]);
+        assert!(c2.size() == L2 / 2 && c2.data()[p] == b[p]);
     }
 
     // @harness id=C02 tier=quick unwind=14 timeout=2400 fs=4096
     // @desc BGV multiplication of two size-2 ciphertexts in NTT form: output polynomial k is slot-wise sum_{i+j=k} a_i*b_j (the coefficients of (a0 + a1 s)(b0 + b1 s)), size 3, correction factor = product of the factors mod t, second operand unchanged
-    // @bounds BGV N=2, q={97,113}, t=17; sizes (2,2); all canonical residues; correction factors 3 and 5; output polynomial and slot symbolic
+    // @bounds BGV N=2, q={97}, t=17; sizes (2,2); all canonical residues; correction factors 3 and 5; output polynomial and slot symbolic
     // @funcs Evaluator::multiply_inplace, Evaluator::bgv_multiply, polysmallmod::dyadic_product_p, polysmallmod::add_inplace_p
     // @stubs HeContext::get_context_data -> linear search over the literal chain (HashMap lookup outside the claim); alloc::sync::Arc::drop_slow -> no-op (memory reclamation outside the claim)
     #[kani::proof]
     #[kani::stub(crate::context::HeContext::get_context_data, crate::context::verif_v::get_context_data_stub)]
     #[kani::stub(alloc::sync::Arc::drop_slow, crate::verif_v::arc_drop_slow_noop)]
     fn c02_bgv_multiply_2x2() {
-        let ctx = lits::ctx_bgv_n2_2p1();
+        let ctx = lits::ctx_bgv_n2_1p();
         let ev = mk_evaluator(ctx.clone());
-        bgv_mul_case::<8, 8>(&ev, *ctx.first_parms_id(), false);
+        bgv_mul_case::<4, 4>(&ev, *ctx.first_parms_id(), false);
         std::mem::forget(ev); std::mem::forget(ctx);
     }
 
     // @harness id=C02 tier=quick unwind=14 timeout=2400 fs=4096
     // @desc BGV multiplication with operands of DIFFERENT sizes, larger operand first (3,2): all four output polynomials are the full tensor-product sums
-    // @bounds BGV N=2, q={97,113}, t=17; sizes (3,2); all canonical residues
+    // @bounds BGV N=2, q={97}, t=17; sizes (3,2); all canonical residues
     // @funcs Evaluator::multiply_inplace, Evaluator::bgv_multiply
     // @stubs HeContext::get_context_data -> linear search over the literal chain (HashMap lookup outside the claim); alloc::sync::Arc::drop_slow -> no-op (memory reclamation outside the claim)
     #[kani::proof]
     #[kani::stub(crate::context::HeContext::get_context_data, crate::context::verif_v::get_context_data_stub)]
     #[kani::stub(alloc::sync::Arc::drop_slow, crate::verif_v::arc_drop_slow_noop)]
     fn c02_bgv_multiply_3x2() {
-        let ctx = lits::ctx_bgv_n2_2p1();
+        let ctx = lits::ctx_bgv_n2_1p();
         let ev = mk_evaluator(ctx.clone());
-        bgv_mul_case::<12, 8>(&ev, *ctx.first_parms_id(), false);
+        bgv_mul_case::<6, 4>(&ev, *ctx.first_parms_id(), false);
         std::mem::forget(ev); std::mem::forget(ctx);
     }
 
     // @harness id=C02 tier=thorough unwind=14 timeout=3000 fs=4096
     // @desc BGV multiplication with sizes (2,3) and squaring of a size-2 ciphertext (= multiplication by itself)
-    // @bounds BGV N=2, q={97,113}, t=17; case chosen symbolically
+    // @bounds BGV N=2, q={97}, t=17; case chosen symbolically
     // @funcs Evaluator::multiply_inplace, Evaluator::bgv_multiply, Evaluator::square_inplace, Evaluator::bgv_square
     // @stubs HeContext::get_context_data -> linear search over the literal chain (HashMap lookup outside the claim); alloc::sync::Arc::drop_slow -> no-op (memory reclamation outside the claim)
     #[kani::proof]
     #[kani::stub(crate::context::HeContext::get_context_data, crate::context::verif_v::get_context_data_stub)]
     #[kani::stub(alloc::sync::Arc::drop_slow, crate::verif_v::arc_drop_slow_noop)]
     fn c02_bgv_multiply_2x3_and_square() {
-        let ctx = lits::ctx_bgv_n2_2p1();
+        let ctx = lits::ctx_bgv_n2_1p();
         let ev = mk_evaluator(ctx.clone());
         let c: bool = kani::any();
-        if c { bgv_mul_case::<8, 12>(&ev, *ctx.first_parms_id(), false) } else { bgv_mul_case::<8, 8>(&ev, *ctx.first_parms_id(), true) }
+        if c { bgv_mul_case::<4, 6>(&ev, *ctx.first_parms_id(), false) } else { bgv_mul_case::<4, 4>(&ev, *ctx.first_parms_id(), true) }
         std::mem::forget(ev); std::mem::forget(ctx);
     }
 
     // @harness id=C03 tier=quick unwind=14 timeout=1800 fs=4096
     // @desc CKKS multiplication: same slot-wise product as BGV and the recorded scale is EXACTLY the IEEE product of the operand scales; ciphertexts not in NTT form are refused elsewhere
-    // @bounds CKKS N=2, q={97,113}; sizes (2,2); all canonical residues; scales 8 and 32 (the bound check goes through f64::log2: exact powers of two, concrete)
+    // @bounds CKKS N=2, q={97}; sizes (2,2); all canonical residues; scales 2 and 4 (the bound check goes through f64::log2: exact powers of two, concrete)
     // @funcs Evaluator::multiply_inplace, Evaluator::ckks_multiply, Evaluator::is_scale_within_bounds
     // @stubs HeContext::get_context_data -> linear search over the literal chain (HashMap lookup outside the claim); alloc::sync::Arc::drop_slow -> no-op (memory reclamation outside the claim)
     #[kani::proof]
     #[kani::stub(crate::context::HeContext::get_context_data, crate::context::verif_v::get_context_data_stub)]
     #[kani::stub(alloc::sync::Arc::drop_slow, crate::verif_v::arc_drop_slow_noop)]
     fn c03_ckks_multiply_scale() {
-        let ctx = lits::ctx_ckks_n2_2p1();
+        let ctx = lits::ctx_ckks_n2_1p();
         let ev = mk_evaluator(ctx.clone());
         let pid = *ctx.first_parms_id();
-        ckks_scale_case(&ev, pid, 8.0, 32.0);
+        ckks_scale_case(&ev, pid, 2.0, 4.0);
         std::mem::forget(ev); std::mem::forget(ctx);
     }
     fn ckks_scale_case(ev: &Evaluator, pid: ParmsID, s1: f64, s2: f64) {
-        let a = sym2::<8>(); let b = sym2::<8>();
-        let c1 = ct2(&a, pid, true, 1, s1); let c2 = ct2(&b, pid, true, 1, s2);
+        let a = sym1::<4>(); let b = sym1::<4>();
+        let c1 = ct1(&a, pid, true, 1, s1); let c2 = ct1(&b, pid, true, 1, s2);
         let mut r = c1.clone();
         ev.multiply_inplace(&mut r, &c2);
-        let p: usize = kani::any(); kani::assume(p < 4);
-        let q = q2(p);
-        kani::cover!(a[p] != 0 && b[4 + p] != 0);
+        let p: usize = kani::any(); kani::assume(p < 2);
+        let q = 97u32;
+        kani::cover!(a[p] != 0 && b[2 + p] != 0);
         assert!(r.scale().to_bits() == (s1 * s2).to_bits());
-        assert!(r.size() == 3 && r.data()[4 + p] == (a[p] * b[4 + p] + a[4 + p] * b[p]) % q);
+        assert!(r.size() == 3 && r.data()[2 + p] as u32 == (a[p] as u32 * b[2 + p] as u32 + a[2 + p] as u32 * b[p] as u32) % q);
         assert!(r.correction_factor() == 1 && *r.parms_id() == pid);
     }
 
@@ -384,7 +383,7 @@ mod proofs {
         std::mem::forget(ev); std::mem::forget(ctx); std::mem::forget(cd);
     }
 
-    // @harness id=C05 tier=quick unwind=14 timeout=1800 fs=4096
+    // @harness id=C05 tier=thorough unwind=14 timeout=1800 fs=4096
     // @desc BGV mod_switch_to_next: lands on the next level, data = the BGV divide-by-last-prime kernel per polynomial, and the correction factor is multiplied by q_last^-1 mod t (bookkeeping that keeps the plaintext unchanged)
     // @bounds BGV N=2, chain {97,113} -> {97}, t=17; size 2; all canonical residues; correction factor 1..16
     // @funcs Evaluator::mod_switch_to_next_new, Evaluator::mod_switch_scale_to_next_internal, RNSTool::mod_t_and_divide_q_last_ntt_inplace, RNSTool::inv_q_last_mod_t
@@ -531,59 +530,81 @@ mod proofs {
         std::mem::forget(ev); std::mem::forget(ctx);
     }
 
-    // @harness id=C06 tier=quick unwind=14 timeout=1800 fs=4096 mem=30
-    // @desc an operand with exactly one corrupted field (here: a residue >= q, or a foreign parms id; shape and metadata corruptions in the two sibling harnesses) makes add_inplace refuse (panic) instead of computing
-    // @bounds BFV N=2, q={97}; second operand corrupted (residue position and value, or parms-id bit pattern symbolic); first operand valid; all other residues canonical
-    // @funcs Evaluator::add_inplace, Evaluator::check_ciphertext, Ciphertext::is_valid_for, Ciphertext::is_metadata_valid_for, Ciphertext::is_buffer_valid, Ciphertext::contains_seed
+    // @harness id=C06 tier=quick unwind=14 timeout=2400 fs=4096
+    // @desc the validity predicate every evaluator operation applies first (Evaluator::check_ciphertext = is_valid_for + seed check) rejects EVERY single-field corruption of an otherwise valid ciphertext: a residue >= q at any position of any polynomial, a foreign parms id (any bit pattern), size 1, wrong degree, wrong modulus count, buffer shorter than announced, scale != 1 in BFV, correction factor != 1 in BFV, an unexpanded seed marker
+    // @bounds BFV N=2, q={97}; size-2 ciphertext, all other residues canonical; corruption kind chosen symbolically (each kind runs in its own concrete arm), corrupted value symbolic
+    // @funcs Ciphertext::is_valid_for, Ciphertext::is_metadata_valid_for, Ciphertext::is_data_valid_for, Ciphertext::is_buffer_valid, Ciphertext::contains_seed
+    // @stubs HeContext::get_context_data -> linear search over the literal chain (HashMap lookup outside the claim); alloc::sync::Arc::drop_slow -> no-op (memory reclamation outside the claim)
+    #[kani::proof]
+    #[kani::stub(crate::context::HeContext::get_context_data, crate::context::verif_v::get_context_data_stub)]
+    #[kani::stub(alloc::sync::Arc::drop_slow, crate::verif_v::arc_drop_slow_noop)]
+    fn c06_validity_rejects_every_corruption() {
+        let ctx = lits::ctx_bfv_n2_1p();
+        let pid = *ctx.first_parms_id();
+        let w: u8 = kani::any();
+        if w == 0 { corrupt_case(&ctx, pid, 0) } else if w == 1 { corrupt_case(&ctx, pid, 1) } else if w == 2 { corrupt_case(&ctx, pid, 2) }
+        else if w == 3 { corrupt_case(&ctx, pid, 3) } else if w == 4 { corrupt_case(&ctx, pid, 4) } else if w == 5 { corrupt_case(&ctx, pid, 6) }
+        else if w == 6 { corrupt_case(&ctx, pid, 7) } else { corrupt_case(&ctx, pid, 8) }
+        std::mem::forget(ctx);
+    }
+    fn corrupt_case(ctx: &Arc<HeContext>, pid: ParmsID, which: u8) {
+        let mut b = sym1::<4>();
+        let bad: u8 = kani::any();
+        let c2 = match which {
+            0 => { kani::assume(bad >= 97); let k: usize = kani::any(); kani::assume(k < 4); b[k] = bad as u64; ct1(&b, pid, false, 1, 1.0) }
+            1 => { let mut fp = pid; let w: usize = kani::any(); kani::assume(w < 4); fp[w] ^= 1 + bad as u64; ct1(&b, fp, false, 1, 1.0) }
+            2 => mk_ciphertext(1, 1, 2, vec![b[0], b[1]], pid, 1.0, false, 1),
+            3 => mk_ciphertext(2, 1, 4, b.to_vec(), pid, 1.0, false, 1),
+            4 => mk_ciphertext(2, 2, 2, b.to_vec(), pid, 1.0, false, 1),
+            6 => ct1(&b, pid, false, 1, 2.0),
+            7 => { kani::assume(bad != 1); ct1(&b, pid, false, bad as u64, 1.0) }
+            _ => { b[2] = crate::text::CIPHERTEXT_SEED_FLAG; ct1(&b, pid, false, 1, 1.0) }
+        };
+        kani::cover!(true);
+        assert!(!c2.is_valid_for(ctx) || c2.contains_seed());
+        if which == 8 { assert!(c2.contains_seed()); }
+    }
+
+    // @harness id=C06 tier=quick unwind=14 timeout=2400 fs=4096
+    // @desc public operations apply that predicate before computing: add_inplace, negate_inplace and mod_switch_to_next_inplace refuse (panic) an operand with an out-of-range residue resp. an unexpanded seed marker, on every path
+    // @bounds BFV N=2, q={97}; witness corruptions: residue 200 at position 1 (second polynomial: position 3), seed marker; other residues symbolic; operation chosen symbolically
+    // @funcs Evaluator::add_inplace, Evaluator::negate_inplace, Evaluator::mod_switch_to_next_inplace, Evaluator::check_ciphertext
     // @expect panic:Invalid argument
     // @stubs HeContext::get_context_data -> linear search over the literal chain (HashMap lookup outside the claim); alloc::sync::Arc::drop_slow -> no-op (memory reclamation outside the claim)
     #[kani::proof]
     #[kani::stub(crate::context::HeContext::get_context_data, crate::context::verif_v::get_context_data_stub)]
     #[kani::stub(alloc::sync::Arc::drop_slow, crate::verif_v::arc_drop_slow_noop)]
-    fn c06_add_refuses_corrupted_residue_or_id() { let w: bool = kani::any(); if w { refuse_case(0) } else { refuse_case(1) } }
-
-    // @harness id=C06 tier=quick unwind=14 timeout=1800 fs=4096 mem=30
-    // @desc as c06_add_refuses_corrupted_residue_or_id for shape corruptions: size 1, wrong degree, wrong modulus count, buffer length mismatch
-    // @bounds BFV N=2, q={97}; corruption chosen symbolically among the four
-    // @funcs Evaluator::add_inplace, Evaluator::check_ciphertext, Ciphertext::is_metadata_valid_for, Ciphertext::is_buffer_valid
-    // @expect panic:Invalid argument
-    // @stubs HeContext::get_context_data -> linear search over the literal chain (HashMap lookup outside the claim); alloc::sync::Arc::drop_slow -> no-op (memory reclamation outside the claim)
-    #[kani::proof]
-    #[kani::stub(crate::context::HeContext::get_context_data, crate::context::verif_v::get_context_data_stub)]
-    #[kani::stub(alloc::sync::Arc::drop_slow, crate::verif_v::arc_drop_slow_noop)]
-    fn c06_add_refuses_corrupted_shape() { let w: u8 = kani::any(); if w == 0 { refuse_case(2) } else if w == 1 { refuse_case(3) } else if w == 2 { refuse_case(4) } else { refuse_case(5) } }
-
-    // @harness id=C06 tier=quick unwind=14 timeout=1800 fs=4096 mem=30
-    // @desc as c06_add_refuses_corrupted_residue_or_id for metadata corruptions: scale != 1 in BFV, correction factor != 1 in BFV, unexpanded seed marker
-    // @bounds BFV N=2, q={97}; corruption chosen symbolically among the three
-    // @funcs Evaluator::add_inplace, Evaluator::check_ciphertext, Ciphertext::is_metadata_valid_for, Ciphertext::contains_seed
-    // @expect panic:Invalid argument
-    // @stubs HeContext::get_context_data -> linear search over the literal chain (HashMap lookup outside the claim); alloc::sync::Arc::drop_slow -> no-op (memory reclamation outside the claim)
-    #[kani::proof]
-    #[kani::stub(crate::context::HeContext::get_context_data, crate::context::verif_v::get_context_data_stub)]
-    #[kani::stub(alloc::sync::Arc::drop_slow, crate::verif_v::arc_drop_slow_noop)]
-    fn c06_add_refuses_corrupted_metadata() { let w: u8 = kani::any(); if w == 0 { refuse_case(6) } else if w == 1 { refuse_case(7) } else { refuse_case(8) } }
-
-    fn refuse_case(which: u8) {
+    fn c06_operations_refuse_invalid_operand() {
         let ctx = lits::ctx_bfv_n2_1p();
         let ev = mk_evaluator(ctx.clone());
         let pid = *ctx.first_parms_id();
         let a = sym1::<4>(); let mut b = sym1::<4>();
+        let w: u8 = kani::any();
+        if w == 0 { b[3] = 200; let mut c1 = ct1(&a, pid, false, 1, 1.0); let c2 = ct1(&b, pid, false, 1, 1.0); ev.add_inplace(&mut c1, &c2); }
+        else if w == 1 { b[1] = 200; let mut c2 = ct1(&b, pid, false, 1, 1.0); ev.negate_inplace(&mut c2); }
+        else if w == 2 { b[2] = crate::text::CIPHERTEXT_SEED_FLAG; let mut c1 = ct1(&a, pid, false, 1, 1.0); let c2 = ct1(&b, pid, false, 1, 1.0); ev.add_inplace(&mut c1, &c2); }
+        else { b[0] = 97; let mut c2 = ct1(&b, pid, false, 1, 1.0); ev.mod_switch_to_next_inplace(&mut c2); }
+        kani::cover!(true, "AFTER: invalid operand accepted");
+    }
+
+    // @harness id=C06 tier=quick unwind=14 timeout=2400 fs=4096
+    // @desc a ciphertext whose data buffer is SHORTER than its announced shape is never computed on: add_inplace stops with a panic (bounds-checked read inside the validity check or the explicit refusal) before anything is written
+    // @bounds BFV N=2, q={97}; second operand announces size 2 but carries 3 words; other residues symbolic
+    // @funcs Evaluator::add_inplace, Ciphertext::is_valid_for
+    // @expect panic:Invalid argument|index out of bounds
+    // @stubs HeContext::get_context_data -> linear search over the literal chain (HashMap lookup outside the claim); alloc::sync::Arc::drop_slow -> no-op (memory reclamation outside the claim)
+    #[kani::proof]
+    #[kani::stub(crate::context::HeContext::get_context_data, crate::context::verif_v::get_context_data_stub)]
+    #[kani::stub(alloc::sync::Arc::drop_slow, crate::verif_v::arc_drop_slow_noop)]
+    fn c06_short_buffer_never_computed_on() {
+        let ctx = lits::ctx_bfv_n2_1p();
+        let ev = mk_evaluator(ctx.clone());
+        let pid = *ctx.first_parms_id();
+        let a = sym1::<4>(); let b = sym1::<4>();
         let mut c1 = ct1(&a, pid, false, 1, 1.0);
-        let bad: u8 = kani::any();
-        // every case builds its operand AND runs the operation inside its own arm (concrete shapes per path)
-        match which {
-            0 => { kani::assume(bad >= 97); let k: usize = kani::any(); kani::assume(k < 4); b[k] = bad as u64; let c2 = ct1(&b, pid, false, 1, 1.0); ev.add_inplace(&mut c1, &c2); }
-            1 => { let mut fp = pid; fp[0] ^= 1 + bad as u64; let c2 = ct1(&b, fp, false, 1, 1.0); ev.add_inplace(&mut c1, &c2); }
-            2 => { let c2 = mk_ciphertext(1, 1, 2, vec![b[0], b[1]], pid, 1.0, false, 1); ev.add_inplace(&mut c1, &c2); }
-            3 => { let c2 = mk_ciphertext(2, 1, 4, b.to_vec(), pid, 1.0, false, 1); ev.add_inplace(&mut c1, &c2); }
-            4 => { let c2 = mk_ciphertext(2, 2, 2, b.to_vec(), pid, 1.0, false, 1); ev.add_inplace(&mut c1, &c2); }
-            5 => { let c2 = mk_ciphertext(2, 1, 2, vec![b[0], b[1], b[2]], pid, 1.0, false, 1); ev.add_inplace(&mut c1, &c2); }
-            6 => { let c2 = ct1(&b, pid, false, 1, 2.0); ev.add_inplace(&mut c1, &c2); }
-            7 => { kani::assume(bad != 1); let c2 = ct1(&b, pid, false, bad as u64, 1.0); ev.add_inplace(&mut c1, &c2); }
-            _ => { b[2] = crate::text::CIPHERTEXT_SEED_FLAG; let c2 = ct1(&b, pid, false, 1, 1.0); ev.add_inplace(&mut c1, &c2); }
-        }
-        kani::cover!(true, "AFTER: corrupted operand accepted");
+        let c2 = mk_ciphertext(2, 1, 2, vec![b[0], b[1], b[2]], pid, 1.0, false, 1);
+        ev.add_inplace(&mut c1, &c2);
+        kani::cover!(true, "AFTER: short-buffer operand accepted");
     }
 
     fn tern(x: u8, q: u64) -> u64 { match x { 0 => 0, 1 => 1, _ => q - 1 } }
@@ -591,7 +612,7 @@ mod proofs {
     /// (a*b)(X) in Z_q[X]/(X^2+1), coefficient form
     fn nmul2(a: [u64; 2], b: [u64; 2], q: u64) -> [u64; 2] { [(a[0] * b[0] + q * q - a[1] * b[1]) % q, (a[0] * b[1] + a[1] * b[0]) % q] }
 
-    // @harness id=C04 tier=quick unwind=14 timeout=3600 fs=4096
+    // @harness id=C04 tier=thorough unwind=14 timeout=14000 fs=4096 mem=40
     // @desc key-switching lemma at a LOWER level of the chain: for any key-switching key whose digit satisfies the RLWE relation ksk = (-(a*s) - e + P*s' [digit component], a) with arbitrary mask a and error |e| <= 21, switch_key_inplace_internal turns (c0, c1) into a ciphertext whose phase under s is phase_in + target*s' + delta with |delta| <= 30 (so relinearisation, Galois rotation and secret-key switching preserve the plaintext); the special prime's component and NTT table are the ones used for the extra RNS slot at every level
     // @bounds BFV N=2, chain {97,113,193} (special prime 193), ciphertext at the LAST level {97} (decomposition size 1 < key size - 1); all ciphertext/target residues, all ternary s and s', all masks, all errors in [-21,21]
     // @funcs Evaluator::switch_key_inplace_internal, polysmallmod::{ntt_lazy,intt_lazy,modulo,multiply_operand_inplace,add_inplace}, barrett_reduce_u128, PublicKey::is_valid_for
@@ -660,7 +681,7 @@ mod proofs {
         unsafe { GAL_ACC = (GAL_ACC * galois_elt) % 32; GAL_CALLS += 1; }
     }
 
-    // @harness id=C04 tier=quick unwind=20 timeout=3600 fs=8192
+    // @harness id=C04 tier=quick unwind=20 timeout=3600 fs=4096
     // @desc rotate_internal composes ANY row-rotation step from the default power-of-two keys: the product of the Galois elements it applies equals get_elt_from_step(step) mod 2N (so the composed automorphism is the requested rotation), every element it requests has a key in the default set, and it never panics -- for every step with 0 < |step| < N/2, whether the key is present directly or the step is NAF-composed (including the +-N/2 NAF digits, which are the identity and must be skipped)
     // @bounds BFV N=16 (row length 8), t=97; Galois keys = exactly get_elts_all(); every step in -7..7; apply_galois_inplace stubbed by a recorder
     // @funcs Evaluator::rotate_internal, GaloisKeys::has_key, GaloisTool::get_elt_from_step, GaloisTool::get_elts_all, naf
@@ -683,15 +704,43 @@ mod proofs {
         while i < elts.len() { keys[(elts[i] - 1) / 2] = vec![mk_public_key(Ciphertext::new())]; i += 1; }
         let gk = mk_galois_keys(mk_kswitch_keys(key_pid, keys));
         let mut ct = mk_ciphertext(2, 2, 16, vec![0; 64], first, 1.0, false, 1);
-        let step: isize = kani::any(); kani::assume(step >= -7 && step <= 7 && step != 0);
-        unsafe { GAL_ACC = 1; GAL_CALLS = 0; }
-        ev.rotate_internal(&mut ct, step, &gk);
-        let want = gt.get_elt_from_step(step);
-        kani::cover!(unsafe { GAL_CALLS } >= 2);
-        kani::cover!(step == -7);
-        assert!(unsafe { GAL_ACC } == want % 32);
-        assert!(unsafe { GAL_CALLS } >= 1);
+        // every step -7..7 (enumerated as concrete cases: the recursion over the NAF digits with a symbolic step does not finish)
+        let mut step: isize = -7; let mut composed = 0;
+        while step <= 7 {
+            if step != 0 {
+                unsafe { GAL_ACC = 1; GAL_CALLS = 0; }
+                ev.rotate_internal(&mut ct, step, &gk);
+                let want = gt.get_elt_from_step(step);
+                assert!(unsafe { GAL_ACC } == want % 32);
+                assert!(unsafe { GAL_CALLS } >= 1);
+                if unsafe { GAL_CALLS } >= 2 { composed += 1; }
+            }
+            step += 1;
+        }
+        kani::cover!(composed >= 4);
         std::mem::forget(ev); std::mem::forget(ctx); std::mem::forget(cd); std::mem::forget(gk);
+    }
+
+    // @harness id=C06 tier=quick unwind=14 timeout=2400 fs=4096
+    // @desc operands in a representation the operation does not accept are refused: BFV multiply with exactly one operand in NTT form, BFV add with operands in different representations, BFV mod switch of an NTT-form ciphertext
+    // @bounds BFV N=2, q={97,113} (chain to {97}); all canonical residues; which operand is in NTT form: both cases (concrete per arm)
+    // @funcs Evaluator::multiply_inplace, Evaluator::bfv_multiply, Evaluator::add_inplace, Evaluator::mod_switch_to_next_inplace
+    // @expect panic:Invalid argument
+    // @stubs HeContext::get_context_data -> linear search over the literal chain (HashMap lookup outside the claim); alloc::sync::Arc::drop_slow -> no-op (memory reclamation outside the claim)
+    #[kani::proof]
+    #[kani::stub(crate::context::HeContext::get_context_data, crate::context::verif_v::get_context_data_stub)]
+    #[kani::stub(alloc::sync::Arc::drop_slow, crate::verif_v::arc_drop_slow_noop)]
+    fn c06_wrong_representation_refused() {
+        let ctx = lits::ctx_bfv_n2_2p1();
+        let ev = mk_evaluator(ctx.clone());
+        let pid = *ctx.first_parms_id();
+        let a = sym2::<8>(); let b = sym2::<8>();
+        let w: u8 = kani::any();
+        if w == 0 { let mut c1 = ct2(&a, pid, true, 1, 1.0); let c2 = ct2(&b, pid, false, 1, 1.0); ev.multiply_inplace(&mut c1, &c2); }
+        else if w == 1 { let mut c1 = ct2(&a, pid, false, 1, 1.0); let c2 = ct2(&b, pid, true, 1, 1.0); ev.multiply_inplace(&mut c1, &c2); }
+        else if w == 2 { let mut c1 = ct2(&a, pid, true, 1, 1.0); let c2 = ct2(&b, pid, false, 1, 1.0); ev.add_inplace(&mut c1, &c2); }
+        else { let mut x = ct2(&a, pid, true, 1, 1.0); ev.mod_switch_to_next_inplace(&mut x); }
+        kani::cover!(true, "AFTER: wrong-representation operand accepted");
     }
 
     #[cfg(test)] include!("/verif/.build/playback/evaluator_v.rs");
